@@ -6,11 +6,9 @@ package cache
 // the model filesystem, against a model HTTP server.
 
 import (
-	"archive/tar"
 	"bytes"
 	"fmt"
 	"io"
-	iofs "io/fs"
 	"net/http"
 
 	"github.com/hashicorp/go-retryablehttp"
@@ -104,34 +102,8 @@ func vpModelDo(c *retryablehttp.Client, r *retryablehttp.Request) (*http.Respons
 	return nil, fmt.Errorf("unexpected method %s", q.method)
 }
 
-// archive/tar's statUnix fills in owner names (user database look-ups) and
-// device numbers from the raw stat; storeFile overwrites the owner fields anyway
-func vpModelStatUnix(fi iofs.FileInfo, h *tar.Header, doNameLookups bool) error { return nil }
-
 func vpHTTPCache() *httpCache {
 	return &httpCache{url: "http://cache", writable: true, client: &retryablehttp.Client{}, requestLimiter: make(limiter, 2)}
-}
-
-// vpConcreteTree: the solver picks the shape (file / symlink / directory with
-// up to two entries, recursively) but every name, content and link target is a
-// concrete string: the bytes go through gzip (Huffman coding, CRC-32), which is
-// out of reach for symbolic bytes.
-func vpConcreteTree(tag, path string, depth int) {
-	switch vpChoice(tag+".kind", 3) {
-	case 0:
-		vpMkFile(path, []string{"", "h", "hello world\n"}[vpChoice(tag+".content", 3)], 0o644)
-	case 1:
-		vpMkLink(path, []string{"a", "../x", "b/c"}[vpChoice(tag+".target", 3)])
-	case 2:
-		vpMkDir(path)
-		if depth <= 0 {
-			return
-		}
-		n := vpChoice(tag+".entries", 3)
-		for i := 0; i < n; i++ {
-			vpConcreteTree(tag+".e", path+"/"+[]string{"a", "b"}[i], depth-1)
-		}
-	}
 }
 
 func vpC13Target() (*core.BuildTarget, []string) {
